@@ -111,6 +111,8 @@ def run_engine(ck, themes, cfg, prop, replay_fn):
 
 def run(ck: Check) -> int:
     from bounded import C01_gen as G
+    from props import C01_stack
+    C01_stack.run_S(ck)          # the protected-prefix stack ADT and DIG/DUG/DUP/DROP n/SWAP on opaque tokens (lead's part)
     n = record_functions(ck)
     ck.assume('the reference semantics specs/michelson_ref.py states the Michelson typing rules and big-step semantics (Mumbai level) '
               'correctly; it is validated against the Octez-produced tuples recorded under tests/unit_tests/test_michelson/test_repl')
